@@ -89,7 +89,9 @@ pub fn arb_c13() -> BoxedStrategy<C13Case> {
     (
         prop::bool::weighted(0.35),
         prop::bool::weighted(0.2),
-        20u16..40,
+        // mostly short reconnect delays; now and then seconds, which a task that honours its
+        // handles during a wait never actually spends
+        prop_oneof![9 => 20u16..40, 1 => Just(3000u16)],
         1u16..=4,
         proptest::option::weighted(0.5, 1u8..3),
         vec(env, 1..6),
